@@ -10,7 +10,8 @@ import Operon.Gen.QuorumConsts
   Modelled glue: `custom_threshold or DEFAULT` (a custom threshold of 0 is falsy), the action-type →
   vote-type mapping, the default confidence 1.0, `weight * reliability_score`, failed voters (raising
   `express`, non-numeric confidence) recorded as zero-confidence ABSTAIN carrying the bare profile weight,
-  the `min_voters` gate on permit+block, `int(...)` of the count threshold, `threshold / len(colony)`.
+  the `min_voters` gate on permit+block, the share-of-colony / `math.ceil` reading of the count threshold,
+  `threshold / len(colony)`.  (Behaviour after the two `fix:` commits 7c2ca31 and 7123d76.)
 
   Not modelled: console output, timing, statistics/history, callbacks, reliability *updates*
   (`update_reliability`; the harness sets `reliability_score` directly), `weighted_score` /
@@ -160,27 +161,45 @@ def confidenceVote (cfg : Cfg) (vs : List Vote) : Result :=
 /-- `likelihood = 0.5 + (vote.confidence * 0.4)` -/
 def likelihood (c : Rat) : Rat := likBase + c * likGain
 
-/-- `_bayesian_update` -/
-def bayesUpdate (prior lik w : Rat) : Rat := prior * (adjBase + (lik - adjCentre) * w)
+/-- `max(0.0, min(1.0, x))` -/
+def clamp01 (x : Rat) : Rat := if x < 0 then 0 else if x > 1 then 1 else x
+
+/-- `_bayesian_update`: the prior times the weight-adjusted likelihood, kept inside [0, 1] -/
+def bayesUpdate (prior lik w : Rat) : Rat := prior * clamp01 (adjBase + (lik - adjCentre) * w)
+
+/-- the pair (prior_permit, prior_block) carried through the two loops of `_bayesian_vote` -/
+structure Belief where
+  pp : Rat
+  pb : Rat
+  deriving Repr, DecidableEq
+
+/-- body of `for vote in permit_votes` -/
+def permitStep (s : Belief) (v : Vote) : Belief :=
+  ⟨bayesUpdate s.pp (likelihood v.conf) v.weight, bayesUpdate s.pb (1 - likelihood v.conf) v.weight⟩
+
+/-- body of `for vote in block_votes` -/
+def blockStep (s : Belief) (v : Vote) : Belief :=
+  ⟨bayesUpdate s.pp (1 - likelihood v.conf) v.weight, bayesUpdate s.pb (likelihood v.conf) v.weight⟩
+
+def belief (vs : List Vote) : Belief :=
+  (ofKind .block vs).foldl blockStep ((ofKind .permit vs).foldl permitStep ⟨priorPermit, priorBlock⟩)
+
+def posterior (s : Belief) : Rat := if s.pp + s.pb > 0 then s.pp / (s.pp + s.pb) else posteriorFallback
 
 /-- `_bayesian_vote` -/
 def bayesianVote (cfg : Cfg) (vs : List Vote) : Result :=
   let t := effThreshold cfg.custom majorityThreshold
-  let pp := (ofKind .permit vs).foldl (fun acc v => bayesUpdate acc (likelihood v.conf) v.weight) priorPermit
-  let pb := (ofKind .block vs).foldl (fun acc v => bayesUpdate acc (likelihood v.conf) v.weight) priorBlock
-  let total := pp + pb
-  let post : Rat := if total > 0 then pp / total else posteriorFallback
-  let reached := decide (post > t)
+  let post := posterior (belief vs)
+  let reached := decide ((ofKind .permit vs).length > 0) && decide (post > t)
   { reached := reached, decision := decisionOf reached, total := vs.length
     permit := (ofKind .permit vs).length, block := (ofKind .block vs).length
     abstain := (ofKind .abstain vs).length, score := post, thresholdUsed := t, votes := vs }
 
-/-- Python's `int(x)`: truncation toward zero. -/
-def truncInt (x : Rat) : Int := if x ≥ 0 then x.floor else x.ceil
-
-/-- `int(self.custom_threshold or len(self.colony) // 2 + 1)` -/
+/-- the permit count `_threshold_vote` asks for: `custom or n // 2 + 1`; a value in (0, 1) is a share of the
+    colony (at least one permit); any fractional count is rounded up (`math.ceil`) -/
 def thresholdCount (cfg : Cfg) (colony : Nat) : Int :=
-  truncInt (effThreshold cfg.custom (natR (colony / 2 + 1)))
+  let t := effThreshold cfg.custom (natR (colony / 2 + 1))
+  if 0 < t ∧ t < 1 then max 1 (t * natR colony).ceil else t.ceil
 
 /-- `_threshold_vote` -/
 def thresholdVote (cfg : Cfg) (colony : Nat) (vs : List Vote) : Result :=
